@@ -46,7 +46,7 @@ def _comments_and_literals(src, toks):
             literals.append(t)
     return comments, literals
 
-_HEADER_WORD = re.compile(r"^\s*(for|if|else if|while|until|match|switch|catch)\b")
+_HEADER_WORD = re.compile(r"(^\s*|=\s*|\bthen\s+)(for|if|else if|while|until|match|switch|catch)\b")
 def shape_tags(src, opts):
     """Shapes of the recorded formatter findings (known_findings.json F-F1 ... F-F9). A failure is attributed to a finding
     only through these predicates; a failing input that shows none of them is reported under the tag `none`."""
@@ -77,7 +77,7 @@ def shape_tags(src, opts):
         if lines[i].strip().split(" ")[0] in ("else", "catch", "finally") and trivia(lines[i - 1]):
             tags.append("blank-before-else")
             break
-    if opts.get("chain_break_threshold", 4) < 4 and any(_HEADER_WORD.match(l) and "." in l for l in lines):
+    if opts.get("chain_break_threshold", 4) < 4 and any(_HEADER_WORD.search(l) and "." in l for l in lines):
         tags.append("chain-in-header")
     return "+".join(tags) if tags else "none"
 
@@ -233,6 +233,17 @@ def run(tier, seed):
     quick = tier == "quick"
     chk.sort_key = lambda k: (0 if ":none:" in k or not k.startswith("fmt:") else 1, k)     # unattributed violations are listed first
     cov = {"evaluations": 0, "distinct_nontrivial": 0, "samples": [], "streams": {}, "passenger_observations": [], "passenger_src": []}
+    # witnesses of the recorded findings
+    w = Worker()
+    wrep = {"violations": [], "evaluations": 0, "formatted": 0, "ran": 0, "comments_seen": 0}
+    for f in chk.known:
+        wit = f.get("witness") or {}
+        if wit.get("op") == "format":
+            o = wit.get("options") or {"line_length": 255}
+            narrow = o.get("line_length", 255) < 255
+            check_one(w, wrep, wit["src"], o, "witness " + f["id"], False, narrow=narrow)
+    w.close()
+    chk.merge_shard(wrep)
     c01.fold(chk, cov, "format-relations", fan_out(_shard, tier=tier, seed=seed, budget_s=40 if quick else 900))
     cov.pop("passenger_observations", None); cov.pop("passenger_src", None)
     cov["rule"] = ("inputs: every parseable corpus program, a fixed subset of its single-token mutants that still parse, and generated programs of four kgen profiles in "
